@@ -27,10 +27,21 @@ type evPathChecker struct {
 // evExitPathsOK reports whether every exit of the program only crosses cells that pass.
 func evExitPathsOK(forms []*sx, avoid func(cell, exit string) bool) (bool, string) {
 	pc := &evPathChecker{avoid: avoid, userFns: map[string]bool{}}
-	for _, f := range forms {
-		if f.k == 'l' && len(f.l) >= 3 && f.l[0].k == 'y' && f.l[0].s == "defun" && f.l[1].k == 'y' {
+	// every defun of the program, also one nested in a let (a function closing over the variables of the let)
+	var collect func(f *sx)
+	collect = func(f *sx) {
+		if f == nil || f.k != 'l' {
+			return
+		}
+		if len(f.l) >= 3 && f.l[0].k == 'y' && f.l[0].s == "defun" && f.l[1].k == 'y' {
 			pc.userFns[f.l[1].s] = true
 		}
+		for _, e := range f.l {
+			collect(e)
+		}
+	}
+	for _, f := range forms {
+		collect(f)
 	}
 	for _, f := range forms {
 		pc.walk(f, nil)
